@@ -377,6 +377,34 @@ def split_scenario(args):
     return ('ok' if marks['a'] or marks['b'] else 'ok-trivial', None, wit)
 
 
+def table_full_scenario(args):
+    """all 16 slots in use, the least recently used buffer holds unsaved text; opening one more file, or quitting with the
+    writeany option set, must not make that text disappear"""
+    vi, idx = args
+    R = rng('c20', 'full', idx)
+    files = {('f%d' % i): b'file %d\nline 2\n' % i for i in range(1, 18)}
+    order = list(range(2, 17))
+    R.shuffle(order)
+    script = b'1s/^/KEEP /\n' + b''.join(b'e! f%d\n' % i for i in order)
+    kind = R.choice(['e17', 'e17', 'wa-q', 'wa-x', 'wa-e17'])
+    if kind.startswith('wa'):
+        script += b'se wa\n'
+    cmd = {'e17': b'e f17', 'wa-q': b'q', 'wa-x': b'x', 'wa-e17': b'e f17'}[kind]
+    script += cmd + b'\nec ' + S(1) + b'\ne! f1\nec ' + S(2) + b'\n1,$p\nec ' + S(3) + b'\n'
+    r, d = common.run_ex(vi, script, files=files, timeout=60)
+    common.rmcase(d)
+    wit = {'index': idx, 'script': script}
+    if r.timed_out or common.san_report(r):
+        return ('inconclusive', None, wit)
+    if S(1) not in r.out:
+        return ('full:quit-with-dirty-buffer', '16 buffers, f1 modified and least recently used, %s:%s left the editor' % ('writeany set, ' if kind.startswith('wa') else '', cmd.decode()), wit)
+    if S(2) in r.out and S(3) in r.out:
+        got = r.out.split(S(2), 1)[1].split(S(3), 1)[0]
+        if got != b'KEEP ' + files['f1']:
+            return ('full:text-lost', '16 buffers, f1 modified and least recently used, %s:%s: afterwards buffer f1 shows %r' % ('writeany set, ' if kind.startswith('wa') else '', cmd.decode(), common.show(got, 60)), wit)
+    return ('ok', None, wit)
+
+
 def unnamed_alt_scenario(args):
     """the buffer without a file name is one of the two most recent buffers: `#` / `%` reach it like any other buffer"""
     vi, idx = args
@@ -428,7 +456,7 @@ def run(tier, V):
             V.violation(key, what, wit)
     nsc = 150 if tier == 'quick' else 2500
     scok = 0
-    for fn in (aw_scenario, split_scenario, unnamed_alt_scenario):
+    for fn in (aw_scenario, split_scenario, unnamed_alt_scenario, table_full_scenario):
         for key, what, wit in pmap(fn, [(vi, base + i) for i in range(nsc)]):
             if key == 'inconclusive':
                 V.inconclusive += 1
@@ -436,7 +464,7 @@ def run(tier, V):
                 scok += 1
             elif key != 'ok-trivial':
                 V.violation(key, what, wit)
-    nchk += 3 * nsc
+    nchk += 4 * nsc
     nsw += scok
     cov = {'autowrite_and_split_window_scenarios': 2 * nsc, 'evaluations': nchk, 'distinct_nontrivial': nsw, 'histories': n, 'observations': nchk, 'switches_checked': nsw, 'cuts': cuts,
            'rule': ('%d histories of 10-50 ops over 2,3,5,8 or 16 files: open (:e), switch (:e path, :e!, :e #, :b N, :b +/-, :b %%/#/^), edit, undo, redo, write, delete-buffer (:b !), renumber (:b ~), '
